@@ -71,10 +71,10 @@ class C13(Check):
                 "StabilizerStateChForm, CliffordTableau, the gate dispatch / decomposition fall-backs",
         "stub": "the pseudo-random generator (ScriptedPRNG); QRef is the oracle",
     }
-    tiers = {"quick": {"runs": 1300, "wall": 85}, "thorough": {"runs": 600000, "wall": 1200}}
+    tiers = {"quick": {"runs": 11000, "wall": 85}, "thorough": {"runs": 600000, "wall": 1200}}
     per_run_timeout = 240
     expected_probes = ["sut:ch-steps", "sut:ch-act_on", "sut:tableau-act_on", "sut:simulate", "sut:run",
-                       "sut:stab-sampler", "sut:clifford-state", "gen:deep", "meas:random", "meas:deterministic", "gate:global-shift", "gate:swap",
+                       "sut:stab-sampler", "sut:clifford-state", "gen:deep", "mode:single-path", "meas:random", "meas:deterministic", "gate:global-shift", "gate:swap",
                        "gate:fallback-1q", "gate:clifford-gate", "gate:controlled-pauli", "gate:mixture",
                        "gate:global-phase", "ch:multi-coin-measure", "gate:iswap"]
 
@@ -91,6 +91,8 @@ class C13(Check):
     def _gen(self, tape, ctx, allow_mixture: bool, deep: bool = False):
         cirq = self.cirq
         n = 1 + tape.weighted([2, 4, 4, 3, 2, 1], "n-qubits")
+        if deep:
+            n = 3 + tape.draw(4, "n-qubits-deep")      # products of several tableau rows need room
         qs = cirq.LineQubit.range(n)
         # the tableau state is cheap to drive: it gets longer, more entangling histories (a deterministic
         # measurement that must combine three or more generator rows needs depth)
@@ -147,7 +149,7 @@ class C13(Check):
                 key = ["a", "b", "c"][tape.draw(3, "key")]
                 if key in keys and keys[key] != w:
                     continue
-                if bits + w > (4 if deep else 6):
+                if bits + w > (9 if deep else 6):
                     continue
                 bits += w
                 keys[key] = w
@@ -199,8 +201,6 @@ class C13(Check):
             # measure every qubit separately at the end: after the first few (random) outcomes the remaining
             # ones are determined, each as a product of several generator rows of the tableau
             for i in tape.shuffle(list(range(n)), "final-order"):
-                if bits + 1 > 7:
-                    break
                 bits += 1
                 c.append(cirq.measure(qs[i], key=f"z{i}"), strategy=cirq.InsertStrategy.NEW)
             feats.add("final-measure-all")
@@ -250,12 +250,12 @@ class C13(Check):
         sp = self.sp
         ctx.workload = "stabilizer"
         sut = ["ch-steps", "ch-act_on", "tableau-act_on", "simulate", "run", "stab-sampler", "clifford-state"][
-            tape.weighted([4, 3, 7, 2, 2, 2, 1], "sut")]
+            tape.weighted([4, 3, 18, 2, 2, 2, 1], "sut")]
         if sut == "clifford-state":
             return self._clifford_state(tape, ctx)
         allow_mixture = sut in ("simulate", "run", "ch-act_on", "tableau-act_on") and tape.chance(1, 3, "mixtures?")
-        circuit, qs, bits, feats = self._gen(tape, ctx, allow_mixture,
-                                             deep=(sut in ("tableau-act_on", "stab-sampler") and tape.chance(2, 3, "deep?")))
+        deep = sut == "tableau-act_on" and tape.chance(4, 5, "deep?")
+        circuit, qs, bits, feats = self._gen(tape, ctx, allow_mixture and not deep, deep=deep)
         if sut in ("run", "stab-sampler") and not circuit.has_measurements():
             circuit.append(cirq.measure(*qs[:2], key="z"))
             bits += min(2, len(qs))
@@ -274,7 +274,7 @@ class C13(Check):
                 reps = 1 + tape.draw(2 if bits <= 4 else 1, "reps")
                 n_leaves = qd.check_run(P, circuit, cfg, reps, ctx, max_leaves=300)
         else:
-            n_leaves = self._stepwise(tape, ctx, circuit, qs, sut, "mixture" in feats)
+            n_leaves = self._stepwise(tape, ctx, circuit, qs, sut, "mixture" in feats, deep)
         ctx.decide("case", repr(circuit), sut, n_leaves)
         ctx.nontrivial = n_leaves >= 2 or len(list(circuit.all_operations())) >= 4
         ctx.steps += n_leaves
@@ -337,7 +337,11 @@ class C13(Check):
                                     f"prep={prep} measure={mq}")
             return before, outs
 
-        leaves = sp.explore(leaf, 300)
+        try:
+            leaves = sp.explore(leaf, 300)
+        except sp.TreeTooLarge:
+            ctx.probe("tree-too-large")
+            return
         w = {}
         for wt, (before, outs), _t in leaves:
             if np.max(np.abs(before - psi_ref)) > 1e-6:
@@ -360,14 +364,18 @@ class C13(Check):
                       "measured": [str(q) for q in mq], "non_collapsing_measurements": n_noncollapsing,
                       "leaves_explored": len(leaves)}
 
-    def _stepwise(self, tape, ctx, circuit, qs, sut: str, has_mixture: bool) -> int:
+    def _stepwise(self, tape, ctx, circuit, qs, sut: str, has_mixture: bool, deep: bool = False) -> int:
         cirq = self.cirq
         sp = self.sp
         per_op = sut != "ch-steps"
         # long histories: compare after every measurement and at the end only (the reference still
         # advances operation by operation)
-        sparse_checks = per_op and len(list(circuit.all_operations())) > 24
-        ref, trace = self._reference_trace(circuit, qs, per_op)
+        sparse_checks = per_op and (deep or len(list(circuit.all_operations())) > 24)
+        single_path = deep and sut == "tableau-act_on"
+        if single_path:
+            ref, trace = None, None      # the reference follows the one path taken (see below)
+        else:
+            ref, trace = self._reference_trace(circuit, qs, per_op)
         n = len(qs)
         ops = list(circuit.all_operations())
 
@@ -401,11 +409,34 @@ class C13(Check):
                 snaps.append(snapshot(st.tableau, st, "tab"))
             return snaps
 
-        try:
-            leaves = sp.explore(leaf, 160)
-        except sp.TreeTooLarge:
-            ctx.probe("tree-too-large")
-            return 0
+        if single_path:
+            # long histories on the cheap tableau state: follow ONE tape-chosen outcome path per case
+            # (every per-snapshot check is valid per path; the probability sums are skipped) -- many more
+            # deep histories per second than enumerating every coin sequence of each
+            prng = sp.ScriptedPRNG([], chooser=lambda k: tape.draw(k, "outcome"))
+            snaps1 = leaf(prng)
+            leaves = [(prng.weight, snaps1, prng.trace)]
+            ctx.probe("mode:single-path")
+            # reference along that path only: after every operation keep the branches that agree with the
+            # results reported so far
+            qref = self.qref
+            ref = qref.QRef(qs, max_branches=4096, branch_mixtures=True)
+            branches = [qref.initial_branch(ref.space, 0)]
+            trace = []
+            for i, op in enumerate(ops):
+                branches = ref.step(branches, op)
+                keep = self._match(branches, snaps1[i][0])
+                if not keep:
+                    raise Violation(f"{P}-PROB", f"[{sut}] after operation {i} ({op}): measurement results "
+                                                 f"{snaps1[i][0]} have probability 0 in the reference\n{circuit}")
+                branches = keep
+                trace.append(branches)
+        else:
+            try:
+                leaves = sp.explore(leaf, 160)
+            except sp.TreeTooLarge:
+                ctx.probe("tree-too-large")
+                return 0
         tol = 1e-6
         total = 0.0
         w_final = {}
@@ -463,6 +494,8 @@ class C13(Check):
                                                                     f"not commute\n{circuit}")
             fk = tuple(sorted(snaps[-1][0].items())) if snaps else ()
             w_final[fk] = w_final.get(fk, 0.0) + w
+        if single_path:
+            return len(leaves)
         if abs(total - 1) > 1e-6:
             raise Violation(f"{P}-PROB", f"[{sut}] coin sequences have total probability {total}\n{circuit}")
         # outcome probabilities (by last instance of every key)
